@@ -85,10 +85,11 @@ def queries(ctx):
             7: "dequeue_chain_front_vs_push_front", 8: "fifo_chain_back_vs_push_back", 9: "chain_sorted_vs_push_sorted", 10: "chain_front_vs_chain_front"}
     for sc, nm in SCEN.items():
         tiers = ("quick", "thorough") if sc in (1, 2, 7, 8) else ("thorough",)
-        qs.append(Q("conc_%s_r3" % nm, [], defs=["SCEN=%d" % sc], engine="S", units=UNITS + ["parsec/include/parsec/sys/atomic-gcc.h"],
-                    gen=seqir(["lc.c"], threads=["thread0", "thread1"], rounds=3), unwind=8, timeout=2400, slow=True, tiers=tiers,
-                    info={"symbolic": ["schedule: every SC interleaving with <= 3 scheduling slots per thread"],
-                          "bounds": {"rounds": 3, "threads": 2}, "stubs": [],
+        R = 2 if sc == 9 else 3      # chain_sorted vs push_sorted: no verdict at R=3 (26 min CPU, 7.3 GB when stopped)
+        qs.append(Q("conc_%s_r%d" % (nm, R), [], defs=["SCEN=%d" % sc], engine="S", units=UNITS + ["parsec/include/parsec/sys/atomic-gcc.h"],
+                    gen=seqir(["lc.c"], threads=["thread0", "thread1"], rounds=R), unwind=8, timeout=2400, slow=True, tiers=tiers,
+                    info={"symbolic": ["schedule: every SC interleaving with <= %d scheduling slots per thread" % R],
+                          "bounds": {"rounds": R, "threads": 2}, "stubs": [],
                           "functions": ["parsec_list_push_back/push_front/pop_front/push_sorted/chain_sorted/unchain/chain_front/chain_back", "parsec_dequeue_*", "parsec_fifo_*", "parsec_atomic_lock/unlock/trylock"]}))
     return qs
 
